@@ -27,7 +27,7 @@ ASSUMPTIONS = ['byte equality of the returned text is the oracle', 'debug output
                'of the returned value and is not compared']
 
 WORKER = r'''
-import sys, json, hashlib, io, random
+import sys, json, hashlib, io, random, re
 sys.path.insert(0, sys.argv[1])
 from yldprolog.compiler import compile_prolog_from_string
 texts = json.load(open(sys.argv[2]))
@@ -74,6 +74,23 @@ for n, i in enumerate(idx):
         except Exception as e:
             h = 'EXC:' + type(e).__name__
         out.setdefault('%d/file' % i, []).append(h)
+        # release 2 of the same file: other text of exactly the same size, modification time preserved
+        # (cp -p, rsync -t, tar, coarse timestamps): the file API must compile what the file holds NOW
+        m = re.search(r'[a-z][a-z0-9_]*', texts[i])
+        if m:
+            last = m.end() - 1
+            t2 = texts[i][:last] + ('q' if texts[i][last] != 'q' else 'r') + texts[i][last + 1:]
+            st = os.stat(fp)
+            open(fp, 'w', encoding='utf8', newline='').write(t2)
+            os.utime(fp, ns=(st.st_atime_ns, st.st_mtime_ns))
+            for key, fn in (('samefile', lambda: compile_prolog_from_file(fp)), ('samestr', lambda: compile_prolog_from_string(t2, opts(0)))):
+                try:
+                    h = hashlib.sha256(fn().encode('utf8', 'backslashreplace')).hexdigest()
+                except RecursionError:
+                    h = 'EXC:RecursionError'
+                except Exception as e:
+                    h = 'EXC:' + type(e).__name__
+                out.setdefault('%d/%s' % (i, key), []).append(h)
     for k in (0, 1, 4, 7, 8, 9):
         try:
             h = hashlib.sha256(compile_prolog_from_string(texts[i], opts(k)).encode('utf8', 'backslashreplace')).hexdigest()
@@ -223,6 +240,14 @@ def run_case(ctx, seed, idx, tier):
             # the file API with default options must give what the string API gives with plain options
             allh.update(ref.get('%d/0' % i, []))
             k = -1
+        elif k == 'samefile':
+            # ... also when the file was replaced by other text of the same size with its old modification time
+            for cfg in CONFIGS:
+                allh.update(results[cfg].get('%d/samestr' % i, []))
+            c['same_size_same_mtime_rewrites'] = c.get('same_size_same_mtime_rewrites', 0) + 1
+            k = -2
+        elif k == 'samestr':
+            k = -3
         for cfg in CONFIGS:
             c['hashes_compared'] = c.get('hashes_compared', 0) + len(results[cfg].get(key, []))
         if len(allh) != 1 and v is None:
